@@ -357,6 +357,17 @@ fn main() {
             let name = args.get(2).map(|s| s.as_str()).unwrap_or("");
             dispatch!(name, exec_case_world, &args)
         }
+        "debug-exhaustive" => {
+            let p = worlds::storagefaults::pools();
+            let mut by: std::collections::BTreeMap<(u8, String), usize> = Default::default();
+            for (si, k, _) in &p.exhaustive_quick {
+                let fam = if *k == 6 { "tokens".to_string() } else { let n = &p.seeds[*si as usize].name; n.split("_of_").next().unwrap_or("").split("__").next().unwrap_or("").chars().take(12).collect() };
+                *by.entry((*k, fam)).or_default() += 1;
+            }
+            for ((k, f), n) in by { println!("kind {k} {f}: {n}"); }
+            println!("seeds {} quick {} full {}", p.seeds.len(), p.exhaustive_quick.len(), p.exhaustive.len());
+            0
+        }
         "debug-bundles" => {
             for (k, b) in &worlds::storagefaults::pools().bundles {
                 println!("{k}: entities={} schema={} requests={}", b.entities.len(), b.schema.is_some(), b.requests.len());
